@@ -59,7 +59,7 @@ Inductive expr :=
       (* statements: debug/common.rs create_debug_map_builder (Educe__RawString + `let mut builder = f.debug_map();`) *)
 | EDebugFieldArg (impl_generics field_ty self_ty where_clause method : toks) (field_expr : expr)
       (* statement: debug/common.rs create_format_arg: `let arg = { struct Educe__DebugField ..; impl ..; Educe__DebugField(field_expr, PhantomData::<Self>) };` *)
-| EDiscrMatch (ds : list (string * Z)) (eq gt lt : expr).
+| EDiscrMatch (ds : list (string * Z)) (eq gt lt : expr)
       (* partial_ord_enum.rs / ord_enum.rs (ds = every variant with its declared discriminant value):
          match ::core::cmp::Ord::cmp(&match self { Self::V { .. } => <d>i128, .. },
                                      &match other { Self::V { .. } => <d>i128, .. }) {
@@ -67,6 +67,7 @@ Inductive expr :=
              ::core::cmp::Ordering::Greater => gt,
              ::core::cmp::Ordering::Less => lt,
          } *)
+| EQPath (ty : toks) (tr : rpath) (name : string).   (* <ty as tr>::name (Default) *)
 
 Definition block := list expr.
 
